@@ -33,6 +33,7 @@
 #include <vector>
 #define private public
 #define protected public
+#include <stdexcept>
 #include <dispenso/graph.h>
 #include <dispenso/graph_executor.h>
 #include <dispenso/task_set.h>
@@ -49,9 +50,14 @@ static std::mutex g_mu;
 static std::vector<Rec> g_recs;
 static const size_t kRecCap = 100000;
 
+static std::atomic<int> g_throwId{0};   // op E: the node with this id throws (once) instead of running
 struct Fn {
   int id;
   void operator()() const {
+    if (id == g_throwId.load()) {
+      g_throwId.store(0);
+      throw std::runtime_error("node functor");
+    }
     long s = g_seq.fetch_add(1);
     unsigned h = static_cast<unsigned>(id) * 2654435761u;
     if ((h >> 9) & 1) std::this_thread::yield();
@@ -120,6 +126,7 @@ template <class G>
 static void runCase(std::istringstream& in, std::ostream& os) {
   using N = typename G::NodeType;
   G g;
+  dispenso::SingleThreadExecutor stEx;   // ONE executor object for all single-thread runs of the case (op x 0 and op E): executors are reusable
   std::vector<std::vector<int>> sgIds(1);
   std::map<int, N*> ptr;
   std::map<const dispenso::Node*, int> idOf;
@@ -165,6 +172,18 @@ static void runCase(std::istringstream& in, std::ostream& os) {
         ptr.erase(id);
       }
       sgIds[sg].clear();
+    } else if (op == "E") {
+      // a run of the (reused) single-thread executor in which node a throws; the exception is caught here and every node is then marked
+      // incomplete again, so the graph is in the same state as after op A whatever the aborted run had done
+      int a;
+      in >> a;
+      g_throwId.store(a);
+      try {
+        stEx(g);
+      } catch (const std::runtime_error&) {
+      }
+      g_throwId.store(0);
+      setAllNodesIncomplete(g);
     } else if (op == "A") {
       setAllNodesIncomplete(g);  // declared only as a friend of Node: found by ADL
     } else if (op == "i") {
@@ -187,8 +206,7 @@ static void runCase(std::istringstream& in, std::ostream& os) {
       }
       g_seq.store(0);
       if (e == 0) {
-        dispenso::SingleThreadExecutor ex;
-        ex(g);
+        stEx(g);
       } else {
         dispenso::ThreadPool pool(static_cast<size_t>(t));
         if (e == 1) {
